@@ -1,6 +1,8 @@
 use crate::engine::{PropertyDef, Tier};
 
 pub mod c01;
+pub mod c02;
+pub mod c03;
 pub mod c04;
 pub mod c16;
 
@@ -8,9 +10,11 @@ pub fn property(id: &str, tier: Tier) -> Option<PropertyDef> {
 	match id {
 		"C01" => Some(c01::def(tier)),
 		"C16" => Some(c16::def(tier)),
+		"C02" => Some(c02::def(tier)),
+		"C03" => Some(c03::def(tier)),
 		"C04" => Some(c04::def(tier)),
 		_ => None,
 	}
 }
 
-pub const ALL: &[&str] = &["C01", "C04", "C16"];
+pub const ALL: &[&str] = &["C01", "C02", "C03", "C04", "C16"];
